@@ -13,6 +13,8 @@ from . import smt
 
 VERIF = os.path.dirname(os.path.dirname(os.path.abspath(__file__)))
 REPO = os.environ.get("VERIF_REPO", "/repo")
+# tools only (seed sweeps on scratch trees): evidence of such runs goes elsewhere; the registered commands never set it
+EVIDENCE_DIR = os.environ.get("VERIF_EVIDENCE_DIR") or os.path.join(VERIF, "evidence")
 EXIT_OK, EXIT_VIOLATION, EXIT_INCONCLUSIVE, EXIT_HARNESS = 0, 1, 2, 3
 
 
@@ -282,11 +284,11 @@ def finish(pid, results, *, explanation, bound, symbolic, assumptions, source_fi
         print(f"{pid} [replay] reproduced=no (stored key: {stored.get('key')!r}; other failing obligations of that job now: {others[:5]}) exit={EXIT_HARNESS if herr else EXIT_OK}")
         sys.exit(EXIT_HARNESS if herr else EXIT_OK)
 
-    os.makedirs(os.path.join(VERIF, "evidence", "replay"), exist_ok=True)
+    os.makedirs(os.path.join(EVIDENCE_DIR, "replay"), exist_ok=True)
     # replay files of earlier runs of this property are stale (they describe another tree): only this run's are kept
-    for name in os.listdir(os.path.join(VERIF, "evidence", "replay")):
+    for name in os.listdir(os.path.join(EVIDENCE_DIR, "replay")):
         if name.startswith(pid + "_") and name.endswith(".json"):
-            os.remove(os.path.join(VERIF, "evidence", "replay", name))
+            os.remove(os.path.join(EVIDENCE_DIR, "replay", name))
     new_violations = []
     lines = []
     seen_known = set()
@@ -299,7 +301,7 @@ def finish(pid, results, *, explanation, bound, symbolic, assumptions, source_fi
                 seen_known.add(v["key"])
                 lines.append(f"KNOWN-FINDING: property={pid} {v['key']} — {known[v['key']].get('what', '')}")
             continue
-        path = os.path.join(VERIF, "evidence", "replay", f"{pid}_{len(new_violations)}.json")
+        path = os.path.join(EVIDENCE_DIR, "replay", f"{pid}_{len(new_violations)}.json")
         json.dump(_finite({"property": pid, **v}), open(path, "w"), indent=1)
         new_violations.append(v)
         lines.append(f"VIOLATION property={pid} replay={path}")
@@ -357,8 +359,8 @@ def finish(pid, results, *, explanation, bound, symbolic, assumptions, source_fi
         "wall_s": round(wall, 2),
         "violations": len(new_violations),
     }
-    os.makedirs(os.path.join(VERIF, "evidence"), exist_ok=True)
-    with open(os.path.join(VERIF, "evidence", f"{pid}.json"), "w") as f:
+    os.makedirs(EVIDENCE_DIR, exist_ok=True)
+    with open(os.path.join(EVIDENCE_DIR, f"{pid}.json"), "w") as f:
         json.dump(ev, f, indent=1)
 
     for ln in lines:
